@@ -1,37 +1,243 @@
 (* C16 — parsing follows the documented precedence; print then re-parse is
-   the identity.  Statements only.  C16_Tables.* is generated from
-   /repo/omega/logic/lexyacc.py, /repo/omega/logic/bitvector.py and
-   /repo/doc/doc.md on every run. *)
+   the identity; alternative spellings; GR(1) splitting.
+   Statements only; proofs in theories/L6Syntax/*Proofs.v.
+   C16_Tables.* is generated on every run from /repo/omega/logic/lexyacc.py
+   (precedence tuple, token rules in PLY order, reserved words,
+   productions), /repo/omega/logic/bitvector.py (opmap) and /repo/doc/doc.md
+   (precedence list, BNF tokens).  C16_Inst.PT is the operator table
+   `mk_ptable code_prec productions`. *)
 From Coq Require Import List String NArith Bool.
 Import ListNotations.
 From Omega Require Import L6Syntax.Tokens L6Syntax.Lexer L6Syntax.Parser
-  L6Syntax.Flatten L6Syntax.Gr1Split L6Syntax.Frontend L6Syntax.TableChecks.
+  L6Syntax.Flatten L6Syntax.Gr1Split L6Syntax.Frontend L6Syntax.TableChecks
+  L6Syntax.PrecSpec L6Syntax.Gr1Spec
+  L6Syntax.TableChecksProofs L6Syntax.ParserProofs L6Syntax.Gr1SplitProofs.
 From OmegaGen Require Import C16_Tables C16_Inst.
 Local Open Scope string_scope.
 
+Local Notation dtt := (doc_tok_type lex_rules lex_reserved lex_values lex_ignore).
+Local Notation centry :=
+  (code_entry lex_rules lex_reserved lex_values lex_ignore code_prec).
+
+(* all tokens the documentation mentions: BNF and precedence list *)
 Definition doc_tokens : list string :=
   (doc_bnf_tokens ++ map snd (flat_levels doc_prec 1))%list.
 
-Theorem C16_doc_tokens_have_spelling_bounded :
-  check_spelling lex_rules lex_reserved lex_values lex_ignore doc_tokens = true.
-Proof. vm_compute. reflexivity. Qed.
+(* ------------------------------------------------------------------ *)
+(* Tie G: the documentation's tables against the code's tables.  Finite
+   statements over the generated tables (hence _bounded), by vm_compute. *)
 
-Theorem C16_doc_order_bounded :
-  check_order lex_rules lex_reserved lex_values lex_ignore code_prec doc_prec = true.
-Proof. vm_compute. reflexivity. Qed.
+(* prec_table_matches_doc: every token of the documentation's BNF and
+   precedence list is delivered by the lexer as an operator or keyword
+   (F8: `R` was not); every two tokens of the documented precedence list
+   have a precedence in the parser's tuple and compare there as documented;
+   the documented associativity is the tuple's. *)
+Theorem C16_prec_table_matches_doc_bounded :
+  (forall d, In d doc_tokens -> exists ty, dtt d = Some ty) /\
+  (forall i a1 d1 j a2 d2,
+     In (i, a1, d1) (doc_flat doc_prec) -> In (j, a2, d2) (doc_flat doc_prec) ->
+     exists b1 c1 b2 c2,
+       centry d1 = Some (b1, c1) /\ centry d2 = Some (b2, c2) /\
+       c1 <> 0%N /\ c2 <> 0%N /\
+       ((i < j)%N <-> (c1 < c2)%N) /\ (i = j <-> c1 = c2)) /\
+  (forall i a d, In (i, a, d) (doc_flat doc_prec) -> exists c, centry d = Some (a, c)).
+Proof.
+  split; [|split].
+  - apply check_spelling_sound. vm_compute. reflexivity.
+  - apply check_order_sound. vm_compute. reflexivity.
+  - apply check_assoc_sound. vm_compute. reflexivity.
+Qed.
 
-Theorem C16_doc_assoc_bounded :
-  check_assoc lex_rules lex_reserved lex_values lex_ignore code_prec doc_prec = true.
-Proof. vm_compute. reflexivity. Qed.
-
-Theorem C16_doc_shapes_bounded :
+(* every infix / prefix / postfix operator of the documented BNF is an
+   operator of that kind in the parser's grammar *)
+Theorem C16_doc_operators_in_grammar_bounded :
   check_shapes lex_rules lex_reserved lex_values lex_ignore code_prec productions
     doc_binary doc_prefix doc_postfix = true.
 Proof. vm_compute. reflexivity. Qed.
 
+(* every spelling of a token lexes, on its own, to exactly one token of its
+   type, carrying the rule's normalised value when the rule normalises
+   (& && /\ -> /\ ; | || \/ -> \/ ; ~ ! -> ~ ; => -> ; <=> <->): alternative
+   spellings of those operators give IDENTICAL token sequences, hence
+   identical trees *)
+Theorem C16_spellings_normalised_bounded :
+  check_alts_lex lex_rules lex_reserved lex_values lex_ignore = true.
+Proof. vm_compute. reflexivity. Qed.
+
+(* the spellings the lexer does not normalise (# /= != ; <= =<) are sent to
+   one operator by bitvector.Nodes.opmap *)
 Theorem C16_synonyms_same_opmap_bounded :
   check_synonyms lex_rules bv_opmap = true.
 Proof. vm_compute. reflexivity. Qed.
 
-Print Assumptions C16_doc_tokens_have_spelling_bounded.
-Print Assumptions C16_doc_order_bounded.
+(* side conditions of the parser theorems hold for the generated table *)
+Theorem C16_table_ok_bounded : table_ok PT = true.
+Proof. vm_compute. reflexivity. Qed.
+
+Theorem C16_prefix_levels_disjoint_bounded :
+  check_level_disjoint code_prec productions = true.
+Proof. vm_compute. reflexivity. Qed.
+
+(* ------------------------------------------------------------------ *)
+(* prec_determines_tree (binary / prefix / postfix core with parentheses,
+   terminals, ranges and ite(,,)): for EVERY surface tree s whose operators
+   are operators of the table (wf) and which groups them as the table
+   demands (respects), the parser applied to the token sequence of s
+   returns exactly the tree s denotes.  Unbounded: by induction on s. *)
+Theorem C16_prec_determines_tree : forall s : stree,
+  wf PT s -> respects PT s -> parse PT (yield s) = Some (erase PT s).
+Proof. exact (prec_determines_tree PT C16_table_ok_bounded). Qed.
+
+(* the table determines the tree: two groupings of the same token sequence
+   that both respect the table denote the same tree *)
+Theorem C16_respecting_tree_unique : forall s1 s2 : stree,
+  wf PT s1 -> respects PT s1 -> wf PT s2 -> respects PT s2 ->
+  yield s1 = yield s2 -> erase PT s1 = erase PT s2.
+Proof. exact (respecting_tree_unique PT C16_table_ok_bounded). Qed.
+
+(* what `respects` demands of an operator followed by an infix operator, in
+   terms of the levels of the table *)
+Theorem C16_stops_reads_levels : forall t c a lv a' lv',
+  pt_bin PT (tty t) = Some (c, a, lv) ->
+  tok_stops PT (bind_of (a', lv')) t = true <->
+  (match a' with RightA => (lv < lv')%N | _ => (lv <= lv')%N end).
+Proof. exact (stops_infix_level PT). Qed.
+
+(* non-vacuity: `[] a U b /\ c` groups as ([] (a U b)) /\ c *)
+Definition ex_s : stree :=
+  SBin (Tok "AND" "/\")
+    (SPre (Tok "ALWAYS" "[]")
+       (SBin (Tok "UNTIL" "U") (SAtom (AVar "a")) (SAtom (AVar "b"))))
+    (SAtom (AVar "c")).
+Example C16_prec_determines_tree_ex :
+  wf PT ex_s /\ respects PT ex_s /\
+  yield ex_s = [Tok "ALWAYS" "[]"; Tok "NAME" "a"; Tok "UNTIL" "U"; Tok "NAME" "b";
+                Tok "AND" "/\"; Tok "NAME" "c"] /\
+  parse PT (yield ex_s)
+  = Some (Bin CBinary "/\" (Un "[]" (Bin CBinary "U" (Term KVar "a") (Term KVar "b")))
+            (Term KVar "c")).
+Proof.
+  assert (W : wf PT ex_s) by (vm_compute; repeat split; discriminate).
+  assert (R : respects PT ex_s) by (vm_compute; repeat split).
+  split; [exact W | split; [exact R | split; [reflexivity|]]].
+  rewrite (C16_prec_determines_tree ex_s W R). reflexivity.
+Qed.
+(* the other grouping does not respect the table *)
+Example C16_wrong_grouping_rejected :
+  ~ respects PT (SPre (Tok "ALWAYS" "[]")
+      (SBin (Tok "AND" "/\")
+         (SBin (Tok "UNTIL" "U") (SAtom (AVar "a")) (SAtom (AVar "b")))
+         (SAtom (AVar "c")))).
+Proof. vm_compute. intros [_ [H _]]. discriminate. Qed.
+
+(* ------------------------------------------------------------------ *)
+(* roundtrip: for EVERY tree of the flatten-able fragment (terminals, unary,
+   binary / comparator / arithmetic, ite), flatten prints a token sequence
+   that parses back to the same tree.  OPTOK is the lexer model applied to
+   one lexeme.  Unbounded: by structural induction on t. *)
+Definition OPTOK : string -> token :=
+  lex1 lex_rules lex_reserved lex_values lex_ignore.
+
+Theorem C16_roundtrip : forall t : tree,
+  flat_ok PT OPTOK t -> parse PT (flatten OPTOK t) = Some t.
+Proof. exact (roundtrip PT C16_table_ok_bounded OPTOK). Qed.
+
+Definition ex_t : tree :=
+  Bin CBinary "=>"
+    (Un "~" (Bin CComparator "<=" (Term KVar "x") (Term KNum "-3")))
+    (Opr "ite" [Term KBool "TRUE"; Un "X" (Term KVar "y");
+                Bin CArithmetic "+" (Term KVar "z") (Term KStr """s""")]).
+Example C16_roundtrip_ex :
+  flat_ok PT OPTOK ex_t /\ parse PT (flatten OPTOK ex_t) = Some ex_t.
+Proof.
+  assert (F : flat_ok PT OPTOK ex_t)
+    by (vm_compute; repeat split; (discriminate || (left; reflexivity) || idtac)).
+  split; [exact F | exact (C16_roundtrip ex_t F)].
+Qed.
+
+(* ------------------------------------------------------------------ *)
+(* spellings (operator core): token sequences that are yields of surface
+   trees of the same shape whose tokens agree in type and in spelling class
+   `cls` parse to trees equal up to the class of every operator name.
+   (For the spellings the lexer normalises the token sequences are already
+   identical: C16_spellings_normalised_bounded.) *)
+Theorem C16_spellings_partial : forall (cls : string -> string) (s1 s2 : stree),
+  ssim cls s1 s2 -> wf PT s1 -> respects PT s1 ->
+  parse PT (yield s1) = Some (erase PT s1) /\
+  parse PT (yield s2) = Some (erase PT s2) /\
+  strip cls (erase PT s1) = strip cls (erase PT s2).
+Proof. exact (fun cls => spellings_core PT cls C16_table_ok_bounded). Qed.
+
+(* the full statement: for ALL token sequences (including the special forms
+   IF/THEN/ELSE, LET, quantifiers), not only yields of the operator core.
+   Not proved; tie H compares spellings on the real parser. *)
+Definition tok_sim (cls : string -> string) (a b : token) : Prop :=
+  tty a = tty b /\
+  (if mem_str (tty a) ["NAME"; "NUMBER"] then tval a = tval b
+   else cls (tval a) = cls (tval b)).
+Definition C16_spellings_full : Prop :=
+  forall (cls : string -> string) (ts1 ts2 : list token),
+    Forall2 (tok_sim cls) ts1 ts2 ->
+    option_map (strip cls) (parse PT ts1) = option_map (strip cls) (parse PT ts2).
+
+(* ------------------------------------------------------------------ *)
+(* split_gr1_spec: on a conjunction, in any nesting of /\, of initial
+   predicates, [] safety formulas and generalized Streett pairs, the model of
+   omega.gr1.split_gr1 returns exactly what one reads off the conjuncts. *)
+Theorem C16_split_gr1_spec : forall n : nest conjunct,
+  Forall conjunct_ok (leaves n) ->
+  Forall (fun c => is_op (conjunct_tree c) "/\" = false) (leaves n) ->
+  temporal_to_canonical (build "/\" (nmap conjunct_tree n))
+  = expected (leaves n) empty_parts.
+Proof. exact split_gr1_spec. Qed.
+
+Theorem C16_split_gr1_lists : forall n : nest conjunct,
+  Forall conjunct_ok (leaves n) ->
+  Forall (fun c => is_op (conjunct_tree c) "/\" = false) (leaves n) ->
+  order_ok (leaves n) ->
+  temporal_to_canonical (build "/\" (nmap conjunct_tree n))
+  = Some (mkParts (inits (leaves n)) (actions (leaves n))
+                  (recurrences (leaves n)) (persistences (leaves n))).
+Proof. exact split_gr1_lists. Qed.
+
+(* outside the fragment the splitter returns None (the code raises) *)
+Theorem C16_split_gr1_rejects_outside : forall t r,
+  temporal_to_canonical t = Some r -> Forall in_fragment (flatten_op "/\" t).
+Proof. exact split_gr1_rejects_outside. Qed.
+
+Definition ex_gr1 : nest conjunct :=
+  Node (Node (Leaf (CInit (Term KVar "a")))
+             (Leaf (CSafe (Bin CBinary "=>" (Term KVar "b") (Un "X" (Term KVar "c"))))))
+       (Node (Leaf (CLive (Leaf (DRec (Leaf (Term KVar "d"))))))
+             (Leaf (CLive (Node (Leaf (DPers (Term KVar "e")))
+                                (Leaf (DRec (Node (Leaf (Term KVar "f"))
+                                                  (Leaf (Term KVar "g"))))))))).
+Example C16_split_gr1_ex :
+  Forall conjunct_ok (leaves ex_gr1) /\
+  Forall (fun c => is_op (conjunct_tree c) "/\" = false) (leaves ex_gr1) /\
+  order_ok (leaves ex_gr1) /\
+  temporal_to_canonical (build "/\" (nmap conjunct_tree ex_gr1))
+  = Some (mkParts [Term KVar "a"]
+            [Bin CBinary "=>" (Term KVar "b") (Un "X" (Term KVar "c"))]
+            [Term KVar "d"; Term KVar "f"; Term KVar "g"] [Term KVar "e"]).
+Proof.
+  repeat split; try (vm_compute; repeat constructor).
+Qed.
+(* a second generalized Streett pair after persistence was collected, and a
+   bare <> are rejected *)
+Example C16_split_gr1_reject_ex :
+  SPLIT "<>[] a /\ []<> b" = None /\ SPLIT "a /\ <> b" = None
+  /\ SPLIT "[] [] a" = None /\ SPLIT "a' /\ [] b" = None.
+Proof. vm_compute. repeat split. Qed.
+
+Print Assumptions C16_prec_table_matches_doc_bounded.
+Print Assumptions C16_doc_operators_in_grammar_bounded.
+Print Assumptions C16_spellings_normalised_bounded.
+Print Assumptions C16_synonyms_same_opmap_bounded.
+Print Assumptions C16_prec_determines_tree.
+Print Assumptions C16_respecting_tree_unique.
+Print Assumptions C16_roundtrip.
+Print Assumptions C16_spellings_partial.
+Print Assumptions C16_split_gr1_spec.
+Print Assumptions C16_split_gr1_lists.
+Print Assumptions C16_split_gr1_rejects_outside.
